@@ -7,7 +7,7 @@ executed symbolically on converter values made of solver characters / solver int
 """
 from __future__ import annotations
 
-from harness.c03 import extra_checks, install_builder_capture, make_stubs, punquote, quoted  # noqa: F401
+from harness.c03 import extra_checks, install_builder_capture, punquote, quoted  # noqa: F401
 from symex.poly import pall_in, pand, pconcat, pcontains, peq, pimplies, plen, pnone_in, pnot, por, pstartswith
 
 PROPERTY = "C04"
@@ -18,7 +18,7 @@ BOUNDS = {
 }
 STUBS = ["urllib.parse.quote: per-byte model, differentially tested at start-up", "percent-decoding of the built URL: ASCII escapes only"]
 ASSUMPTIONS = ["rule maps are enumerated (pairwise non-overlapping rules)", "values are ASCII (non-ASCII quoting goes through UTF-8 and is outside this claim)"]
-OUTSIDE = ["float and uuid converters (C parsing / stdlib class)", "non-ASCII values", "subdomain / host matching", "extra query values"]
+OUTSIDE = ["float converter (C float parsing/formatting)", "uuid values beyond 3 (8) free hex digits in a fixed template", "non-ASCII values", "Submount/Subdomain factories", "extra query values"]
 
 RULES = [
     ("s", "/s/<x>", "str"),
@@ -30,7 +30,42 @@ RULES = [
     ("m", "/m/<x>/<int:n>", "str+int"),
     ("l", "/l/<string(length=2):x>", "str2"),
     ("h", "/h/<int(fixed_digits=4,signed=True):n>", "sint4"),
+    ("u", "/u/<uuid:u>", "uuid"),
 ]
+
+
+class SymUUID:
+    """stands for a uuid.UUID whose canonical text holds solver characters"""
+
+    __symex_carrier__ = True
+
+    def __init__(self, text):
+        self.text = text
+
+    def __str__(self):
+        return self.text
+
+
+UUID_TEMPLATE = "01234567-89ab-4cde-8f01-23456789abcd"
+
+
+def make_stubs():  # noqa: F811  (extends the quote stubs imported above)
+    import uuid
+
+    from harness.c03 import make_stubs as base
+    from symex.seq import SSeq
+
+    st = base()
+
+    def uuid_stub(I, hex=None, *a, **kw):
+        """uuid.UUID(text) on solver text that already has the canonical 8-4-4-4-12 lower-case
+        shape (that is what the converter's regex admitted): an object with that text"""
+        if isinstance(hex, SSeq) and not a and not kw:
+            return SymUUID(hex)
+        return uuid.UUID(hex, *a, **kw)
+
+    st[uuid.UUID] = uuid_stub
+    return st
 
 
 def build_map():
@@ -73,6 +108,21 @@ def body_build_match(I, X, ep="s", script="/", external=False, n=2):
         values["p"] = p
     if kind == "any":
         values["k"] = X.choice("k", ["xx", "y"])
+    utext = None
+    if kind == "uuid":
+        # n solver hex digits at positions spread over the five groups (incl. the version and
+        # variant digits); the others are fixed
+        import uuid
+
+        pos = [14, 19, 0, 35, 9, 24, 13, 23][:n]
+        h = X.str("hex", n, minlen=n, maxcp=0x7F)
+        X.assume(pall_in(h, [(0x30, 0x39), (0x61, 0x66)]))
+        parts, last = [], 0
+        for j, ppos in sorted(zip(range(n), pos), key=lambda t: t[1]):
+            parts += [UUID_TEMPLATE[last:ppos], h[j:j + 1]]
+            last = ppos + 1
+        utext = pconcat(*parts, UUID_TEMPLATE[last:])
+        values["u"] = SymUUID(utext) if X.symbolic else uuid.UUID(utext)
     url = I.call(adapter.build, (ep,), {"values": dict(values), "force_external": external})
     root = ("http://example.org" if external else "") + script.rstrip("/")
     ok = pstartswith(url, root + "/")
@@ -81,9 +131,57 @@ def body_build_match(I, X, ep="s", script="/", external=False, n=2):
     path = punquote(url[len(root):])
     got_ep, got_args = I.call(adapter.match, (), {"path_info": path, "method": "GET"})
     got = dict(I.dict_items(got_args))
-    ok = pand(got_ep == ep, len(got) == len(values), *[peq(got.get(k), v) for k, v in values.items()])
+    if utext is not None:
+        ok = pand(got_ep == ep, len(got) == 1, "u" in got and peq(str(got["u"]) if not isinstance(got["u"], SymUUID) else got["u"].text, utext))
+    else:
+        ok = pand(got_ep == ep, len(got) == len(values), *[peq(got.get(k), v) for k, v in values.items()])
     # the built URL is ASCII and contains no raw reserved delimiter that would end the path
     ok = pand(ok, pall_in(url, [(0x21, 0x7E)]), pnone_in(url, [0x3F, 0x23]))
+    if utext is not None:
+        got = {k: (v.text if isinstance(v, SymUUID) else str(v)) for k, v in got.items()}
+    return ok, {"url": url, "match": [got_ep, got]}
+
+
+def body_domain(I, X, ep="u", n=2, host_matching=False):
+    """subdomain / host rules: the URL built for a rule on another subdomain (or host) is
+    external; matching its path on the adapter bound to that subdomain (host) gives the same
+    endpoint and values -- also when the placeholder value equals a literal subdomain of a
+    sibling rule"""
+    from werkzeug.routing import Map, Rule
+
+    install_builder_capture()
+    if host_matching:
+        m = Map([Rule("/p/<int:n>", endpoint="w", host="www.example.org"), Rule("/q/<x>", endpoint="u", host="<user>.example.org"),
+                 Rule("/", endpoint="r", host="example.org")], host_matching=True)
+        adapter = m.bind("example.org", url_scheme="http")
+    else:
+        m = Map([Rule("/p/<int:n>", endpoint="w", subdomain="www"), Rule("/q/<x>", endpoint="u", subdomain="<user>"), Rule("/", endpoint="r")])
+        adapter = m.bind("example.org", url_scheme="http")
+    m.update()
+    values = {}
+    if ep == "u":
+        user = X.str("user", n, minlen=n, maxcp=0x7A)
+        X.assume(pall_in(user, [(0x30, 0x39), (0x61, 0x7A)]))
+        x = X.str("x", 1, minlen=1, maxcp=0x7E)
+        X.assume(pall_in(x, [(0x21, 0x7E)]))
+        X.assume(pnone_in(x, [0x2F]))
+        values = {"user": user, "x": x}
+        exp_host = pconcat(user, ".example.org")
+    else:
+        values = {"n": X.int("n", 0, 999)}
+        exp_host = "www.example.org"
+    url = I.call(adapter.build, (ep,), {"values": dict(values)})
+    pre = pconcat("http://", exp_host, "/")
+    if not bool(pstartswith(url, pre)):
+        return False, {"url": url}
+    path = punquote(url[plen(pre) - 1:])
+    if host_matching:
+        adapter2 = I.call(m.bind, (exp_host,), {"url_scheme": "http"})
+    else:
+        adapter2 = I.call(m.bind, ("example.org",), {"url_scheme": "http", "subdomain": exp_host[: plen(exp_host) - len(".example.org")]})
+    got_ep, got_args = I.call(adapter2.match, (), {"path_info": path, "method": "GET"})
+    got = dict(I.dict_items(got_args))
+    ok = pand(got_ep == ep, len(got) == len(values), *[peq(got.get(k), v) for k, v in values.items()])
     return ok, {"url": url, "match": [got_ep, got]}
 
 
@@ -125,6 +223,8 @@ def obligations(tier, seed):
                 if quick and script != "/" and external:
                     continue
                 ns = [0] if kind in ("int", "int3", "sint", "sint4", "any", "str2") else (range(1, 4) if quick else range(1, 6))
+                if kind == "uuid":
+                    ns = [3] if quick else [4, 8]
                 if kind == "path":
                     ns = range(1, 5) if quick else range(1, 7)
                 for n in ns:
@@ -132,6 +232,11 @@ def obligations(tier, seed):
                                 "params": {"ep": ep, "script": script, "external": external, "n": n},
                                 "opts": {"budget_s": 900, "ctx": {"max_cp": 0x7E, "bv_ints": True, "max_digits": 6}},
                                 "witness": n in (0, 2) and script == "/" and not external})
+    for hm in (False, True):
+        for ep, ns in (("u", [1, 3] if quick else [1, 2, 3, 4]), ("w", [0])):
+            for n in ns:
+                out.append({"name": f"domain[{ep},host_matching={hm},n={n}]", "body": "body_domain", "params": {"ep": ep, "n": n, "host_matching": hm},
+                            "opts": {"budget_s": 900, "ctx": {"max_cp": 0x7E, "bv_ints": True, "max_digits": 6}}})
     for n in (range(1, 6) if quick else range(1, 8)):
         out.append({"name": f"match_build[n={n}]", "body": "body_match_build", "params": {"n": n},
                     "opts": {"budget_s": 900, "ctx": {"max_cp": 0x7E, "bv_ints": True, "max_digits": 6}}, "witness": n == 3})
